@@ -189,6 +189,14 @@ def _consts():
     return harvest(boot.SK)
 
 
+def _fill_keys(rng, cfg, thr):
+    """a big table stays almost empty under a dozen pool keys: two long random keys whose
+    n-gram windows touch thousands of counters per row"""
+    ks = [hexk(bytes(rng.getrandbits(8) for _ in range(rng.choice([1500, 3000])))) for _ in range(2)]
+    thr["fill_keys"] = ks
+    cfg["pool"] = cfg["pool"] + ks
+
+
 THRESHOLD_EVERY = 12  # every 12th run of a batch is a threshold run
 
 
@@ -240,15 +248,17 @@ def plan_threshold(rng, cfg, shared_ok=False, run_index=None):
         if w * d > 4096:
             cfg["n_events"] = min(cfg["n_events"], 16)
             cfg["n_nodes"] = min(cfg["n_nodes"], 2)
+            _fill_keys(rng, cfg, thr)
     elif dim == "table_bytes" and C <= (1 << 25) and fam in CMS:
         base_cells = C // itemsize
         # just past the constant, and well past it (a remainder large enough to hold data)
-        cells = base_cells + rng.choice([1, 17, 1000, base_cells // 3 + 1, base_cells // 2 + 3])
+        cells = base_cells + rng.choice([1, 1000, base_cells // 7 + 1, base_cells // 3 + 1, base_cells // 2 + 3])
         d = rng.randrange(1, 5)
         cfg["width"], cfg["depth"] = max(1, -(-cells // d)), d
         if cells > 4096:
             cfg["n_events"] = min(cfg["n_events"], 12)
             cfg["n_nodes"] = min(cfg["n_nodes"], 2)
+            _fill_keys(rng, cfg, thr)
     elif dim == "shm_multiple" and C <= (1 << 16) and fam != "hll":
         # shape whose shared-memory payload (tables + 16 bookkeeping bytes) is an exact multiple of C
         found = None
@@ -364,6 +374,11 @@ def gen_workload(rng, world, mult, node=None):
         ev["keys"] = rng.choices(pool, k=L)
         if rng.random() < 0.5 and L:
             ev["keys"][-1] = pool[rng.randrange(len(pool))]
+        return _draw_fields(rng, world, ev)
+    if thr is not None and "fill_keys" in thr and rng.random() < 0.35:
+        ev["op"] = "add_ngram"
+        ev["key"] = rng.choice(thr["fill_keys"])
+        ev["n"] = rng.choice([3, 4, 5])
         return _draw_fields(rng, world, ev)
     if thr is not None and thr["dim"] == "ngram_windows" and "keys" in thr and rng.random() < 0.3:
         ev["op"] = "add_ngram"
